@@ -315,7 +315,21 @@ class CFG:
             n = self._simple(st, frontier)
             if stmt_may_raise(st):
                 self._exc_edges(n)
-            self._edge(n, self.exit, 'return')
+            # a return inside try ... finally runs the final bodies (innermost first) on its way out:
+            # each gets its own copy, built in the context outside that try statement
+            out = [(n, 'return')]
+            saved = list(self._try_stack)
+            done = set()
+            for k in range(len(saved) - 1, -1, -1):
+                ts = saved[k].try_stmt
+                if not ts.finalbody or id(ts) in done:
+                    continue
+                done.add(id(ts))
+                self._try_stack = [c for c in saved[:k] if c.try_stmt is not ts]
+                out = self._block(ts.finalbody, out)
+            self._try_stack = saved
+            for m, lab in out:
+                self._edge(m, self.exit, 'return')
             return []
         if isinstance(st, ast.Raise):
             n = self._simple(st, frontier)
